@@ -492,6 +492,36 @@ pub fn run(tier: &str, seed: u64) -> i32 {
         }
         hs.push(enc);
     }
+    // histories with repeated values: a key written twice within one block and back to what it held (the entry of
+    // the current block is overwritten in place, so {1:A, 2:A} is an ordinary history), a key set and removed within
+    // one block ({0:None, n:None}), and the same three blocks later
+    {
+        let shapes: Vec<(&str, Vec<(u64, Option<u64>)>)> = vec![
+            ("A, then B and back to A within block 2", vec![(1, Some(7)), (2, Some(8)), (2, Some(7))]),
+            ("set and removed within block 5", vec![(5, Some(7)), (5, None)]),
+            ("A, removed and set to A again within block 3", vec![(1, Some(7)), (3, None), (3, Some(7))]),
+            ("A, B/A within block 2, C in block 5", vec![(1, Some(7)), (2, Some(8)), (2, Some(7)), (5, Some(9))]),
+            ("removed twice", vec![(1, Some(7)), (2, None), (4, Some(7)), (4, None)]),
+        ];
+        for (name, writes) in shapes {
+            for initial in [None, Some(U64ED::from(7u64))] {
+                let mut h = BlockHistoryCacheData::<U64ED>::new(initial);
+                for (b, v) in &writes {
+                    match v {
+                        Some(v) => h.set(*b, (*v).into()),
+                        None => h.unset(*b),
+                    }
+                }
+                let enc = h.encode_vec();
+                let ok = BlockHistoryCacheData::<U64ED>::decode(&enc, 0).map(|(d, used)| d.encode_vec() == enc && used == enc.len() && d.latest() == h.latest()).unwrap_or(false);
+                t.evaluations += 1;
+                if !ok {
+                    t.violations.push(("roundtrip-BlockHistoryCacheData".into(), format!("history '{}' (initial value {:?}, {} bytes) does not come back from its encoding unchanged", name, initial.map(|x| x.uint), enc.len())));
+                }
+                hs.push(enc);
+            }
+        }
+    }
     t.evaluations += hs.len() as u64;
     t.types.push(json!({"type": "BlockHistoryCacheData<U64ED>", "values": hs.len()}));
     // --- ordering law on every key type used for range scans / last-key lookups ---
